@@ -29,6 +29,7 @@ def ob1_construction(ck, sim):
             if r.kind != 'ret':
                 ck.violation(f"ctor+load:n={n}:{r.kind}", f"constructor + load ends in {r.kind}: {r.val}", None); continue
             mem = sim.mem(r.st, p).full(); j = z3.BitVec('j', 32)
+            junk_ = mem if False else junk
             ok, m = ck.prove(E, r.st, z3.Implies(z3.And(z3.UGE(j, n), z3.ULT(j, MEMWORDS)), z3.Select(mem, j) == 0),
                              f"after construction and load of an {n}-word image every other memory word reads as zero")
             if not ok:
